@@ -282,8 +282,14 @@ func (p *Peer) SetMode(mode string) error {
 			return err
 		}
 		// fill the accept queue; a dial that times out proves it is full
+		// (the first connection always fits and, with backlog 0, fills the queue on Linux; the
+		// further attempts only guard against a kernel that rounds the backlog up)
 		for i := 0; i < 6; i++ {
-			c, err := net.DialTimeout("tcp", p.Addr, 60*time.Millisecond)
+			to := 100 * time.Millisecond
+			if i == 0 {
+				to = 5 * time.Second // a loaded machine may take its time
+			}
+			c, err := net.DialTimeout("tcp", p.Addr, to)
 			if err != nil {
 				if i == 0 {
 					return fmt.Errorf("cannot fill the accept queue: %w", err)
